@@ -117,7 +117,8 @@ mod lab {
     impl AccessControl for Lab {}
 }
 
-const ROLES: [&str; 3] = ["minter", "burner", "r3"];
+// ("empty": the role whose name is the empty symbol - a role like any other, not a wildcard and not "no admin role")
+const ROLES: [&str; 4] = ["minter", "burner", "r3", "empty"];
 /// In "long" runs the role the model calls "r3" is a symbol longer than nine characters (a host object, no longer a
 /// value packed into 64 bits): everything the library does with role names must not depend on their representation.
 const R3_LONG: &str = "r3_a_role_name_beyond_nine_chars";
@@ -245,7 +246,7 @@ impl Sys {
 
     fn role_name(&self, s: &Symbol) -> String {
         let n = s.to_string();
-        if n == R3_LONG { "r3".to_string() } else { n }
+        if n == R3_LONG { "r3".to_string() } else if n.is_empty() { "empty".to_string() } else { n }
     }
 
     /// Projection of the state through the public getters, for the whole universe.
